@@ -662,7 +662,7 @@ func (fi *FuncInfo) collectGuards() {
 			if c == g || c.Reject != "" {
 				continue
 			}
-			if cs := c.Cond.String(); strings.Contains(cs, "iter") || strings.Contains(cs, "next") {
+			if isLoopHeader(c.Block) {
 				continue
 			}
 			if c.Block.Succs[0] == c.Block.Succs[1] {
@@ -947,6 +947,17 @@ func isLocalAddr(a ssa.Value) bool {
 	case *ssa.FreeVar:
 		_ = x
 		return true
+	}
+	return false
+}
+
+// isLoopHeader: the block dominates one of its predecessors (natural-loop header). Its branch is the
+// loop condition, which is not part of a guard's context.
+func isLoopHeader(b *ssa.BasicBlock) bool {
+	for _, p := range b.Preds {
+		if b.Dominates(p) {
+			return true
+		}
 	}
 	return false
 }
